@@ -579,8 +579,10 @@ def db_cases():
     readback = [('cmd', 2, [b'select', d]) for d in ()]
     def back():
         out = []
-        for d in (b'0', b'1', b'2'):
+        for d in (b'0', b'1', b'2', b'5', b'6', b'7'):
             out += [('cmd', 2, [b'select', d]), ('cmd', 2, [b'keys', b'*']), ('cmd', 2, [b'get', b'k']), ('cmd', 2, [b'dbsize'])]
+            if d in (b'5', b'6', b'7'):
+                out += [('cmd', 2, [b'ttl', b'k']), ('cmd', 2, [b'ttl', b't']), ('cmd', 2, [b'pttl', b'i'])]
         return out
     inner = [
         [[b'select', b'1'], [b'set', b'k', b'in1'], [b'dbsize'], [b'rpush', b'l', b'x']],
@@ -593,6 +595,11 @@ def db_cases():
         [[b'select', b'1'], [b'keys', b'*'], [b'scan', b'0'], [b'randomkey'], [b'exists', b'k'], [b'type', b'k'], [b'ttl', b'k']],
         [[b'select', b'1'], [b'expire', b'k', b'100'], [b'ttl', b'k'], [b'rename', b'k', b'k2'], [b'select', b'0'], [b'ttl', b'k']],
         [[b'select', b'1'], [b'blpop', b'l', b'0'], [b'sort', b'l', b'store', b'k'], [b'zunionstore', b'z', b'1', b'zz'], [b'publish', b'ch', b'm']],
+        # databases nobody has touched before: they are created while the command runs and must carry the server's clock
+        [[b'select', b'5'], [b'set', b'k', b'v', b'ex', b'100'], [b'ttl', b'k'], [b'setex', b'j', b'50', b'w'], [b'pttl', b'j'], [b'psetex', b'i', b'1500', b'x'], [b'ttl', b'i'],
+         [b'expire', b'k', b'7'], [b'ttl', b'k'], [b'expireat', b'j', b'1'], [b'exists', b'j'], [b'dbsize']],
+        [[b'set', b't', b'v', b'ex', b'100'], [b'move', b't', b'6'], [b'select', b'6'], [b'ttl', b't'], [b'pexpire', b't', b'2500'], [b'ttl', b't'], [b'persist', b't'], [b'ttl', b't']],
+        [[b'set', b't', b'v', b'px', b'900'], [b'swapdb', b'0', b'7'], [b'ttl', b't'], [b'select', b'7'], [b'pttl', b't'], [b'set', b'u', b'w', b'ex', b'3'], [b'ttl', b'u'], [b'keys', b'*']],
     ]
     seed = [[b'set', b'k', b'zero'], ('cmd', 2, [b'select', b'1']), ('cmd', 2, [b'mset', b'k', b'one', b'only1', b'x']), ('cmd', 2, [b'rpush', b'l', b'a', b'b']),
             ('cmd', 2, [b'zadd', b'zz', b'1', b'm'])]
